@@ -15,6 +15,30 @@ CHECKS = {
         "Every grammatical signature with <= 5 (quick) / 6 (thorough) parameters over the five parameter kinds x default/no default, as plain functions and as bound methods, is compiled from source and every call shape Python accepts is executed against the real filter_args; the result must equal what Signature.bind binds, also under rotating ignore lists of <= 2 names. Exhaustive within the bound, observed on real executions.",
         "Trusts inspect.Signature.bind as the definition of Python's binding; signatures beyond the bound and exotic callables (C functions, functools.wraps chains) are not driven.",
         "3/C07", "sigenum"),
+    "C08": (
+        "exploration",
+        "cross-process differential monitor: K interpreters with different PYTHONHASHSEED rebuild a seeded value universe in permuted insertion orders; digests compared per value and digest->canonical-form injectivity checked over the whole universe",
+        "joblib.hash is executed on every value of a seeded recursive universe (plus the explicit near-colliding pairs of the statement) in 4 (quick) / 8 (thorough) interpreter processes with different string-hash seeds, each with two insertion-order permutations and with shared vs distinct equal strings, md5 and sha1; all digests of a value must agree and distinct canonical forms must get distinct digests (all pairs, by grouping).",
+        "Canonical form defines 'same value'; aliased sub-objects, NaN in sets and ==-equal keys of different type in one container are excluded by the statement; user classes and numpy arrays are not in this universe.",
+        "3/C08", "objuniverse"),
+    "C13": (
+        "exploration",
+        "model-based runtime monitor: every operation on the real BinaryZlibFile/BinaryGzipFile is mirrored on a reference stream; stdlib decoders check produced bytes; per-operation line/CPU/address-space budgets decide non-termination",
+        "Seeded operation sequences (read(n), read(), readinto, readline, tell, seek with all whence values, forwards/backwards/past the end) on payloads around the 8192-byte block boundaries, on BytesIO and real files, for data written by joblib (any chunking, level 1..9, bytes and memoryview) and by the stdlib; each result and position is compared with a 30-line clamping reference stream. An operation exceeding its executed-lines / CPU-time / 1 GiB address-space budget is a non-termination witness.",
+        "Reference stream is the specification; only seek targets >= 0 are in the domain; sampling, not exhaustive.",
+        "3/C13", "budgets"),
+    "C17": (
+        "exploration",
+        "runtime differential monitor: executed nestings of parallel_config/parallel_backend in lock-step threads, each observation (get_active_backend, Parallel(**explicit)) compared with a reference precedence lattice",
+        "Programs of nested contexts (depth <= 4, any subset of the eight settings, exits by fall-through or exception, old and new API, custom backend instances) are executed in 1-3 threads stepping through barriers; after every enter/exit each thread constructs Parallel with several explicit-argument subsets and queries get_active_backend(), and the observed backend class, n_jobs, verbose and backend kwargs must equal the reference resolution of that thread's own stack; the main thread must observe nothing. Depth <= 2 single-key contexts are enumerated, the rest sampled.",
+        "Reference lattice follows the statement plus the one carve-out the repository's suite asserts (n_jobs reset when a context's explicit backend is replaced by the thread fallback); where the statement leaves n_jobs open both values are accepted; LIFO usage only; construction only, no workers started.",
+        "3/C17", "harness"),
+    "C18": (
+        "exploration",
+        "runtime monitor with declarative oracle: real stores, own stat inventory before/after reduce_size, minimal-LRU-prefix conditions, then re-calls counted for hit/recompute",
+        "Stores of 0-12 entries are built by real cached calls (two functions, optional compression, zero-size entries), access times set explicitly (ties, increasing, spread), and reduce_size is called with limit triples including None, 0, exact fit (also spelled as K/M strings), fit-1 and ages between entries; survivors must meet every limit, be no older than any evicted entry, the eviction must be minimal, survivors must hit without executing and evicted entries recompute exactly once.",
+        "No concurrent writer; age deadlines kept >= 60 s from any entry; ties may break either way; the store's own notion of entry size (sum of file sizes) is used.",
+        "3/C18", "harness"),
 }
 
 PENDING_REASON = "check not built yet in this tree (see DESIGN.md section 8 build order); nothing is claimed for it"
@@ -71,6 +95,10 @@ def main():
 NOT_APPLICABLE = {}
 
 ENGINES = [
+    dict(name="objuniverse", path="vlib/gen_obj.py", serves_properties=["C08", "C03", "C14", "C02", "C06"],
+         kind_free_text="seeded recursive universe of builtin values as specs: builder with permutable insertion order, canonical form, structural isomorphism (equality + aliasing)"),
+    dict(name="budgets", path="vlib/budget.py", serves_properties=["C13", "C14", "C03"],
+         kind_free_text="logical non-termination guards: sys.monitoring executed-line budgets on chosen modules, ITIMER_PROF CPU budget, RLIMIT_AS cap"),
     dict(name="harness", path="vlib/harness.py", serves_properties=["*"],
          kind_free_text="case runner: sharding over subprocess sessions, three-valued verdicts, evidence, known-findings matcher, replay"),
     dict(name="sigenum", path="vlib/gen_sig.py", serves_properties=["C07", "C02", "C06"],
